@@ -1,13 +1,249 @@
 package c12
 
 import (
+	"fmt"
+	"os"
+	"sort"
+	"strconv"
+	"strings"
+	"time"
+
+	imodels "github.com/influxdata/influxdb/models"
+	"github.com/influxdata/kapacitor"
+	"github.com/influxdata/kapacitor/edge"
+
 	"verifharness/kit"
 )
 
-type taskRun struct{}
+// A real task: `task new kind=join|union n=.. [join cfg] dims=..` then `task w <src> <time> tags= fields=`
+// lines in the order the points are WRITTEN to the TaskMaster (the parents `stream|from().measurement('m<i>')`
+// are read by the multiConsumer goroutines of the join/union node: the write order only biases the
+// arrival interleaving), then `task run`: start, write, Drain (parents end, Finish flushes), Wait, read sink.
+type taskRun struct {
+	kind   string
+	cfg    joinCfg
+	dims   []string
+	rename string
+	writes []taskWrite
+}
+
+type taskWrite struct {
+	src    int
+	t      int64
+	tags   map[string]string
+	fields map[string]interface{}
+}
 
 func (t *taskRun) close() {}
 
-func (r *runner) taskOp(t []string) string { return "unsupported" }
+func (t *taskRun) script() string {
+	var b strings.Builder
+	gb := ""
+	if len(t.dims) > 0 {
+		var ds []string
+		for _, d := range t.dims {
+			ds = append(ds, tickStr(d))
+		}
+		gb = ".groupBy(" + strings.Join(ds, ",") + ")"
+	}
+	for i := 0; i < t.cfg.n; i++ {
+		fmt.Fprintf(&b, "var p%d = stream|from().measurement('m%d')%s\n", i, i, gb)
+	}
+	if t.kind == "union" {
+		fmt.Fprintf(&b, "p0|union(%s)", others(t.cfg.n))
+		if t.rename != "" {
+			fmt.Fprintf(&b, ".rename(%s)", tickStr(t.rename))
+		}
+		b.WriteString("@sink()\n")
+		return b.String()
+	}
+	s := t.cfg.script()
+	s = s[strings.Index(s, "p0|join("):]
+	b.WriteString(s)
+	fmt.Fprintf(&b, "\n  .tolerance(%du)", t.cfg.tol/1000)
+	b.WriteString("\n  @sink()\n")
+	return b.String()
+}
 
-func genTasks(out *kit.Out, r *kit.Rand, n int, tier string) {}
+func (r *runner) taskOp(t []string) string {
+	switch t[1] {
+	case "new":
+		m := kv(t[2:])
+		tr := &taskRun{kind: m["kind"], cfg: parseJoinCfg(t[2:]), rename: un(m["rename"])}
+		for _, d := range splitList(m["dims"]) {
+			tr.dims = append(tr.dims, un(d))
+		}
+		r.tasks = tr
+		return "ok"
+	case "w":
+		if r.tasks == nil || len(t) < 4 {
+			return "nonew"
+		}
+		m := kv(t[4:])
+		w := taskWrite{src: int(atoi(t[2])), t: atoi(t[3]), tags: parseTags(m["tags"]), fields: parseFields(m["fields"])}
+		r.tasks.writes = append(r.tasks.writes, w)
+		return ""
+	case "run":
+		if r.tasks == nil {
+			return "nonew"
+		}
+		return r.tasks.run()
+	}
+	return "badop"
+}
+
+var taskSeq int
+
+func (t *taskRun) run() string {
+	tm, err := kit.NewTM(kit.TMOpts{})
+	if err != nil {
+		fmt.Fprintln(os.Stderr, "c12: cannot build TaskMaster:", err)
+		return "err:tm"
+	}
+	defer tm.Close()
+	taskSeq++
+	id := fmt.Sprintf("c12t%d", taskSeq)
+	et, err := tm.StartStream(id, t.script(), []kapacitor.DBRP{{Database: "db", RetentionPolicy: "rp"}})
+	if err != nil {
+		if os.Getenv("VERIF_LOG") != "" {
+			fmt.Fprintln(os.Stderr, "task:", err, "\n", t.script())
+		}
+		return "err:start"
+	}
+	var pts []imodels.Point
+	for _, w := range t.writes {
+		p, err := imodels.NewPoint(fmt.Sprintf("m%d", w.src), imodels.NewTags(w.tags), imodels.Fields(w.fields), time.Unix(0, w.t).UTC())
+		if err != nil {
+			return "err:point"
+		}
+		pts = append(pts, p)
+	}
+	// several calls of varying size: the parents' edges fill and drain at different moments
+	for i := 0; i < len(pts); {
+		n := 1 + (i*7+len(pts))%5
+		if i+n > len(pts) {
+			n = len(pts) - i
+		}
+		if err := tm.TM.WritePoints("db", "rp", imodels.ConsistencyLevelAll, pts[i:i+n]); err != nil {
+			return "err:write"
+		}
+		i += n
+	}
+	tm.TM.Drain()
+	done := make(chan error, 1)
+	go func() { done <- et.Wait() }()
+	select {
+	case err := <-done:
+		if err != nil {
+			return "err:task"
+		}
+	case <-time.After(20 * time.Second):
+		return "timeout"
+	}
+	var keys []string
+	for _, k := range tm.Rec.Keys() {
+		if strings.HasPrefix(k, id+"/") {
+			keys = append(keys, k)
+		}
+	}
+	if len(keys) > 1 {
+		return "err:sink" + strconv.Itoa(len(keys))
+	}
+	var es []string
+	if len(keys) == 1 { // no key: the sink never received a message
+		for _, m := range tm.Rec.Get(keys[0]) {
+			if _, ok := m.(edge.PointMessage); ok {
+				es = append(es, renderMsg(m))
+			}
+		}
+	}
+	if t.kind == "join" {
+		sort.Strings(es) // a multiset: the emission order depends on the schedule
+	}
+	return strings.Join(append([]string{strconv.Itoa(len(es))}, es...), " ")
+}
+
+// ---- generator ----
+
+func genTask(r *kit.Rand) []string {
+	kind := kit.Pick(r, []string{"join", "join", "union"})
+	n := kit.Pick(r, []int{2, 2, 3})
+	ms := int64(1000000)
+	tol := kit.Pick(r, []int64{0, 0, 10 * ms, 1000 * ms})
+	fill := kit.Pick(r, []string{"none", "null", "i:0", "f:" + kit.F64(2.5)})
+	names := []string{"a", "b", "c"}[:n]
+	grouped := r.Chance(1, 2)
+	dims := "-"
+	hosts := []string{"x"}
+	if grouped {
+		dims, hosts = "h", []string{"x", "y"}
+	}
+	unit := ms
+	if tol == 1000*ms {
+		unit = 400 * ms
+	}
+	type item struct {
+		t            int64
+		tags, fields string
+	}
+	seqs := make([][]item, n)
+	id := 1
+	lagging := -1
+	if r.Chance(1, 3) {
+		lagging = r.Intn(n)
+	}
+	t := int64(1700000000) * 1000 * ms
+	for slot := 0; slot < 3+r.Intn(8); slot++ {
+		t += int64(kit.Pick(r, []int{0, 1, 1, 2, 5, 30})) * unit
+		for _, h := range hosts {
+			for i := 0; i < n; i++ {
+				cnt := kit.Pick(r, []int{0, 1, 1, 1, 2})
+				if i == lagging && r.Chance(2, 3) {
+					cnt = 0
+				}
+				for k := 0; k < cnt; k++ {
+					tt := t
+					if tol > 0 && r.Chance(1, 2) {
+						tt += (int64(r.Intn(int(tol/ms))) - tol/ms/2) * ms
+					}
+					tags := "h=" + h
+					if r.Chance(1, 3) {
+						tags += ",z=q"
+					}
+					seqs[i] = append(seqs[i], item{tt, tags, fmt.Sprintf("id=i:%d", id)})
+					id++
+				}
+			}
+		}
+	}
+	lens := make([]int, n)
+	for i := range seqs {
+		sort.SliceStable(seqs[i], func(a, b int) bool { return seqs[i][a].t < seqs[i][b].t })
+		lens[i] = len(seqs[i])
+	}
+	cfg := fmt.Sprintf("kind=%s n=%d tol=%d names=%s fill=%s dims=%s", kind, n, tol, strings.Join(names, ","), fill, dims)
+	if kind == "union" {
+		cfg = fmt.Sprintf("kind=union n=%d tol=0 names=%s dims=%s rename=%s", n, strings.Join(names, ","), dims, kit.Pick(r, []string{"%", "%", "u"}))
+	}
+	var ops []string
+	for _, pat := range []int{r.Intn(2), 2 + r.Intn(3)} {
+		ops = append(ops, "task new "+cfg)
+		for _, a := range merge(r, lens, pat) {
+			it := seqs[a[0]][a[1]]
+			ops = append(ops, fmt.Sprintf("task w %d %d tags=%s fields=%s", a[0], it.t, it.tags, it.fields))
+		}
+		ops = append(ops, "task run")
+	}
+	return ops
+}
+
+func genTasks(out *kit.Out, r *kit.Rand, n int, tier string) {
+	k := n / 8
+	if k < 6 {
+		k = 6
+	}
+	for i := 0; i < k; i++ {
+		emit(out, fmt.Sprintf("t%d", i), execCase(genTask(r.Fork())))
+		out.Flush()
+	}
+}
